@@ -72,7 +72,7 @@ impl PartialOrd for Duration {
 impl Duration {
 @@extract fn src/structure/duration.rs Duration::from_secs
 @@ret r
-@@ensures time.duration.from_secs
+@@ensures frag.glue.time.duration.from_secs
     r.seconds == secs, r.fraction == 0
 @@end
 }
@@ -118,7 +118,7 @@ impl core::ops::Add<Duration> for Timestamp {
 impl Timestamp {
 @@extract fn src/structure/time.rs Timestamp::duration_since
 @@ret r
-@@ensures time.duration_since
+@@ensures frag.glue.time.duration_since
     r == ts_diff(*self, since)
 @@end
 }
